@@ -33,11 +33,11 @@ def T():
     return Table("t")
 
 
-def mk(name, aliased, how="as_"):
+def mk(name, aliased, how="as_", alias=None):
     n, b = ZOO_BY[name]
     t = b([T().field("c%d" % i) for i in range(max(n, 1))])
     if aliased:
-        t = t.as_(ALIAS)
+        t = t.as_(alias or ALIAS)
     return t
 
 
@@ -103,6 +103,12 @@ REF_POS = {
     "orderby_same": lambda Q, x, x2: Q.from_(T()).select(x).orderby(x2),
     "setop_orderby_same": lambda Q, x, x2: Q.from_(T()).select(x).union(Q.from_(Table("u")).select(Table("u").k)).orderby(x2),
     # the alias is defined only by the SECOND operand: result columns are named by the first, so it is undefined
+    # the select list lost the item that defined the alias (table.* / * replaces the table's columns)
+    "orderby_after_table_star": lambda Q, x, x2: Q.from_(T()).select(x).select(T().star).orderby(x2),
+    "groupby_after_table_star": lambda Q, x, x2: Q.from_(T()).select(x).select(T().star).groupby(x2),
+    "orderby_after_star": lambda Q, x, x2: Q.from_(T()).select(x).select("*").orderby(x2),
+    "orderby_never_selected": lambda Q, x, x2: Q.from_(T()).select(T().k).orderby(x2),
+    "groupby_never_selected": lambda Q, x, x2: Q.from_(T()).select(T().k).groupby(x2),
     "setop_orderby_alias_of_later_operand": lambda Q, x, x2: Q.from_(T()).select(T().k).union(Q.from_(Table("u")).select(x)).orderby(x2),
 }
 
@@ -133,6 +139,10 @@ def expand(chunk):
                 yield {"d": d, "term": name, "pos": pos}
         for pos in REF_POS:
             yield {"d": d, "term": name, "pos": pos, "ref": True}
+        n_slots = max(ZOO_BY[name][0], 1)
+        for i in range(n_slots):
+            for pos in ("select", "select_first", "insert_value"):
+                yield {"d": d, "term": name, "pos": pos, "alias_as": "c%d" % i}
 
 
 def render_both(o, d):
@@ -224,10 +234,62 @@ def run_selectable(case, res):
                         "selectable alias emitted %d times at position %s (expected %d)" % (len(defs), pos, want), dialect=d, sql=sql)
 
 
+def run_alias_named(case, res):
+    """the alias is spelled like one of the term's own columns (SELECT NOT "c0" "c0"): it must still be emitted, exactly
+    once, directly after the item"""
+    d, name, pos, al = case["d"], case["term"], case["pos"], case["alias_as"]
+    Q = fp.QCLS[d]
+    lexd = "sqlite" if d == "generic" else d
+    kind, fn = POS[pos]
+    try:
+        a = fn(Q, mk(name, True, alias=al))
+        b = fn(Q, mk(name, False))
+    except Exception as e:
+        if name in _REJECTED_AS_VALUE and pos == "insert_value":
+            return
+        res.nontrivial = 1
+        res.violate("C12|%s|build-raises|%s" % (pos, type(e).__name__), "a valid statement of the menu was rejected while it was built",
+                    dialect=d, term=name, pos=pos, error=str(e)[:200])
+        return
+    res.nontrivial = 1
+    term = mk(name, True, alias=al)
+    c = cls_of(name, term)
+    for sa, sb in zip(render_both(a, d), render_both(b, d)):
+        res.transitions += 1
+        if sa.startswith("!") or sb.startswith("!"):
+            continue
+        try:
+            ta, tb = [(t.kind, t.value) for t in lex(sa, lexd)], [(t.kind, t.value) for t in lex(sb, lexd)]
+        except LexError:
+            continue
+        ok = False
+        if len(ta) == len(tb) + 1:
+            i = 0
+            while i < len(tb) and ta[i] == tb[i]:
+                i += 1
+            # several equal tokens may precede the insertion point: try every split up to the first difference
+            for j in range(i, -1, -1):
+                if ta[j] == ("ID", al) and ta[:j] == tb[:j] and ta[j + 1:] == tb[j:]:
+                    nxt = ta[j + 1] if j + 1 < len(ta) else None
+                    if nxt is None or nxt in (("OP", ","), ("OP", ")")) or (nxt[0] == "WORD" and nxt[1] in ("FROM", "ON", "RETURNING")):
+                        ok = True
+                        break
+        if not ok:
+            sym = "alias-dropped" if ta == tb else "alias-misplaced"
+            res.violate("C12|%s|defining|%s|named-like-column" % (c, sym), "an alias spelled like one of the term's own columns is not emitted "
+                        "exactly once directly after the item (%s)" % pos, dialect=d, term=name, position=pos, alias=al, sql=sa, without=sb)
+
+
+_REJECTED_AS_VALUE = set()
+
+
 def run_case(case):
     res = Result()
     if "sel" in case:
         run_selectable(case, res)
+        return res
+    if "alias_as" in case:
+        run_alias_named(case, res)
         return res
     d, name, pos = case["d"], case["term"], case["pos"]
     Q = fp.QCLS[d]
@@ -253,7 +315,7 @@ def run_case(case):
                 continue
             ap = alias_positions(toks)
             # split at GROUP BY / ORDER BY: references after it, definitions before it
-            kw = "GROUP" if pos == "groupby_same" else "ORDER"
+            kw = "GROUP" if pos.startswith("groupby") else "ORDER"
             cut = max([i for i, t in enumerate(toks) if t.kind == "WORD" and t.value == kw] or [len(toks)])
             first_end = cut
             if pos.startswith("setop"):
